@@ -160,6 +160,8 @@ def oracle(w):
             return _oracle_condhist(w)
         if w.get("kind") == "tiny":
             return _oracle_tiny(w)
+        if w.get("kind") == "ccvtype":
+            return _oracle_ccvtype(w)
         return _oracle(w)
     except Exception as e:
         return True, "the implementation raised " + type(e).__name__ + ": " + str(e)[:120]
@@ -414,6 +416,21 @@ def _oracle_transformed(w):
             t, sem, n = apply_transform(name, qc, w)
         except Exception as e:
             return False, f"{name} not applicable: {type(e).__name__}: {str(e)[:60]}"
+    if name == "add_circuit" and sem is not None:
+        # the composed circuit must show the operations of the same circuit built with add_gate directly
+        try:
+            direct = build_from_witness(dict(w, n=n, ops=sem))
+            show = lambda c: [(g.name, g.targets, getattr(g, "controls", None), getattr(g, "classical_controls", None),
+                               getattr(g, "classical_control_value", None), getattr(g, "control_value", None),
+                               getattr(g, "classical_store", None)) for g in c.gates]
+            if show(t) != show(direct):
+                j = next((i for i, (a, b) in enumerate(zip(show(t), show(direct))) if a != b), None)
+                return True, (f"add_circuit(start={w.get('start', 1)}): operation {j} of the composed circuit is "
+                              f"{show(t)[j] if j is not None else '(missing)'}, the same circuit built with add_gate has "
+                              f"{show(direct)[j] if j is not None else show(direct)} "
+                              f"(name, targets, controls, classical_controls, classical_control_value, control_value, store)")
+        except Exception:
+            pass
     for mo in reversed(w.get("pre") or []):
         # measurements put in front AFTER the transformation (resolve_gates & co. refuse circuits with measurements)
         t.add_measurement("M", targets=[mo["M"]], classical_store=mo.get("store"), index=[0])
@@ -543,7 +560,8 @@ def pending():
                 if isinstance(node, ast.FunctionDef) and node.name == "add_circuit":
                     calls = [c for c in ast.walk(node) if isinstance(c, ast.Call) and isinstance(c.func, ast.Attribute)
                              and c.func.attr == "add_gate"]
-                    if calls and not any(k.arg == "classical_controls" for c in calls for k in c.keywords):
+                    # exactly the unrepaired call: add_gate(name, targets=, controls=, arg_value=) and nothing else
+                    if calls and all({k.arg for k in c.keywords} == {"targets", "controls", "arg_value"} for c in calls):
                         _PENDING.add("C02-4")
         except Exception:
             pass
@@ -821,6 +839,94 @@ W_STRUCTHIST = {"kind": "condhist", "n": 1, "ncb": 1, "cbits": None, "init": [[1
 
 
 # ------------------------------------------------------------------------------------------
+# the numeric TYPE of classical_control_value, through every construction path
+
+CCV_TYPES = ["int", "bool", "i64", "i32", "u8", "arr0"]
+CCV_PATHS = ["add_gate", "class", "gate"]
+
+
+def _oracle_ccvtype(w):
+    """classical_control_value given as a Python int / bool / numpy integer / 0-d array, the gate built by name, through
+    its gate class, or as a Gate object: a value that is no bit pattern of the listed controls (v < 0 or v >= 2^k) is
+    REFUSED at construction; a value in range fires on exactly the classical states whose listed bits (first listed most
+    significant) equal it."""
+    import qutip
+    from qutip_qip.circuit import QubitCircuit
+    from qutip_qip import operations as ops_
+    cc, v, ncb = list(w["cc"]), w["value"], w["ncb"]
+    k = len(cc)
+    val = S.ccv_as(w["type"], v)
+    name = "CNOT" if w.get("quantum_control") else "X"
+    n = 2 if w.get("quantum_control") else 1
+    kw = {"classical_controls": list(cc), "classical_control_value": val}
+    tk = {"targets": [n - 1], **({"controls": [0]} if n == 2 else {})}
+    in_range = 0 <= v < 2 ** k
+    try:
+        qc = QubitCircuit(n, num_cbits=ncb)
+        if w["path"] == "add_gate":
+            qc.add_gate(name, **tk, **kw)
+        elif w["path"] == "class":
+            qc.add_gate(getattr(ops_, name)(**tk, **kw))
+        else:
+            qc.add_gate(ops_.Gate(name, **tk, **kw))
+    except ValueError as e:
+        if in_range:
+            return True, f"valid condition value {val!r} ({type(val).__name__}) on {k} classical bits refused: {str(e)[:60]}"
+        return False, "out-of-range value refused at construction"
+    except Exception as e:
+        return True, f"construction raised {type(e).__name__}: {str(e)[:80]}"
+    init = qutip.basis([2] * n, [1] * (n - 1) + [0])          # the quantum control (if any) is 1
+    fired_on = []
+    for bits in itertools.product([0, 1], repeat=ncb):
+        try:
+            out = qc.run(init, cbits=list(bits))
+        except Exception as e:
+            return True, f"simulation with classical bits {list(bits)} raised {type(e).__name__}: {str(e)[:80]}"
+        if abs(out.full().ravel()[-1]) > 0.5:
+            fired_on.append(list(bits))
+    if not in_range:
+        return True, (f"classical_control_value = {val!r} ({type(val).__name__}) on the {k} classical bits {cc} is no bit "
+                      f"pattern of them but was accepted ({w['path']}); the gate fires with classical bits {fired_on}")
+    want = [list(b) for b in itertools.product([0, 1], repeat=ncb)
+            if sum(b[c] << (k - 1 - i) for i, c in enumerate(cc)) == v]
+    if fired_on != want:
+        return True, (f"value {val!r} ({type(val).__name__}) on {cc}: fires with classical bits {fired_on}, "
+                      f"expected exactly {want}")
+    return False, "fires on exactly the matching classical states"
+
+
+def rand_ccvtype(rng):
+    ncb = rng.randint(1, 3)
+    k = rng.randint(1, ncb)
+    t = rng.choice(CCV_TYPES)
+    v = rng.randint(0, 1) if t == "bool" else rng.randint(-2 if t not in ("u8",) else 0, 2 ** (k + 1) + 1)
+    return {"kind": "ccvtype", "path": rng.choice(CCV_PATHS), "type": t, "cc": rng.sample(range(ncb), k), "ncb": ncb,
+            "value": v, "quantum_control": rng.random() < 0.3}
+
+
+def all_ccvtype():
+    """every type x every construction path: one value in range (2) and out-of-range values (4, 5, 7) on [c0, c1]"""
+    for t in CCV_TYPES:
+        for path in CCV_PATHS:
+            for v in ((1,) if t == "bool" else (2, 5, 4, 7)):
+                yield {"kind": "ccvtype", "path": path, "type": t, "cc": [0, 1], "ncb": 2, "value": v, "quantum_control": False}
+
+
+def all_addcircuit():
+    """blocks with a conditioned gate of every value on 1-3 classical bits, with and without a quantum control, added
+    at offsets 0 and 1"""
+    for k in (1, 2, 3):
+        for v in range(2 ** k):
+            for qctrl in (False, True):
+                for start in (0, 1):
+                    g = ({"name": "CNOT", "targets": [1], "controls": [0]} if qctrl else
+                         {"name": "X", "targets": [0], "controls": None})
+                    yield {"kind": "transformed", "transform": "add_circuit", "n": 2 if qctrl else 1, "ncb": k, "seed": 7,
+                           "start": start, "pad": 0,
+                           "ops": [dict(g, arg=None, cc=list(range(k)), ccv=v)]}
+
+
+# ------------------------------------------------------------------------------------------
 # records of tiny but legitimate probability
 
 def _oracle_tiny(w):
@@ -1081,7 +1187,8 @@ class C02(PropertyCheck):
         outs = ctx.driver("drv_sim").run(lines)
         for case, impl, line, o in zip(cases, impls, lines, outs):
             nontrivial = any(("m" in op) or (op.get("cc") is not None) for op in case["ops"])
-            inp = {k: case[k] for k in ("n", "ncb", "mode", "ops", "lists", "inits", "calls", "alts", "assign") if k in case}
+            inp = {k: case[k] for k in ("n", "ncb", "mode", "ops", "lists", "inits", "calls", "alts", "assign", "ccvtype",
+                                        "path") if k in case}
             res.case(inp, nontrivial=nontrivial, tags=tags_fn(case, impl) + (["conditions=assigned"] if case.get("assign") else [])
                      + (["edits=condition"] if case.get("alts") else []))
             try:
@@ -1116,6 +1223,9 @@ class C02(PropertyCheck):
               and (cb is None or all(b in (0, 1) for b in cb)))
         if not ok:
             return None
+        if case.get("ccvtype") and len(ops) == 1 and ops[0].get("cc") is not None and ops[0].get("ccv") is not None:
+            return {"kind": "ccvtype", "path": case.get("path", "add_gate"), "type": case["ccvtype"], "cc": ops[0]["cc"],
+                    "ncb": case["ncb"], "value": ops[0]["ccv"], "quantum_control": False}
         if case.get("assign"):
             return {"kind": "transformed", "transform": "assigned", "late": ["cc"], "n": case["n"], "ncb": case["ncb"],
                     "ops": ops, "init": init}
@@ -1193,9 +1303,18 @@ class C02(PropertyCheck):
                 for cs in (comb, comb[::-1]):
                     for bits in itertools.product([0, 1], repeat=5):
                         cases.append(table_case(5, cs, None, bits))
+        # ... and the value given as another numeric type / the gate built through its class or as a Gate object: every
+        # ordered subset (k = 1, 2) of 3 bits x every value 0..2^(k+1)-1 (in and out of range) x every bit vector
+        for t_, path_ in (("i64", "add_gate"), ("u8", "class"), ("arr0", "gate"), ("i32", "class"), ("bool", "gate")):
+            for k in (1, 2):
+                for cs in itertools.permutations(range(3), k):
+                    for v in (range(2) if t_ == "bool" else range(2 ** (k + 1))):
+                        for bits in itertools.product([0, 1], repeat=3):
+                            cases.append(dict(table_case(3, cs, v, bits), ccvtype=t_, path=path_))
         self._run_cases(ctx, res, cases, lambda c, i: ["table=condition", "k=%d" % len(c["ops"][0]["cc"]),
                                                        "value=" + ("default" if c["ops"][0]["ccv"] is None else "explicit"),
-                                                       "register=%d" % c["ncb"]],
+                                                       "register=%d" % c["ncb"], "type=" + c.get("ccvtype", "int"),
+                                                       "path=" + c.get("path", "add_gate")],
                         self._to_witness)
         res.exhaustive = True
         res.notes.append("exhaustive: every ordered subset of 3 classical bits (k=0..3) x every control value "
@@ -1382,9 +1501,21 @@ class C02(PropertyCheck):
             f, d = oracle(w)
             if f:
                 yield w, d
+        # small exhaustive enumerations: numeric type x construction path of classical_control_value; add_circuit blocks
+        # with every condition value on 1-3 bits
+        for w in itertools.chain(all_ccvtype(), ([] if "C02-4" in pending() else all_addcircuit())):
+            f, d = oracle(w)
+            if f:
+                yield w, d
         i = 0
         while time.time() - t0 < budget_s and (count is None or i < count):
             i += 1
+            if rng.random() < 0.08:
+                w = rand_ccvtype(rng)
+                f, d = oracle(w)
+                if f:
+                    yield w, d
+                continue
             if rng.random() < 0.12:
                 # records of tiny but legitimate probability (small angles before measurements, long prescribed records)
                 w = rand_tiny(rng)
